@@ -3,6 +3,19 @@
 A case is a dict  {"ns","nf","tern":[0/1/2 per pixel, row-major],"con8":0/1,"labels": expected dense labels
 (for the *above* pixels, canonical numbering), "np": n}.  tern: 0 = absent from the sparse list,
 1 = listed but not strictly above threshold, 2 = above.  Dense routes see tern==2 as above.
+Optional "zpi","zpj" (SparseCP.tla's ZPI, ZPJ): the splat scratch is sized for a frame that many rows / columns larger.
+
+The specification's image is binary / ternary; the harness chooses the numbers (covariant: the model depends on the
+values only through "strictly above the threshold"), rotating with the case index through
+  * thresholds: exact in float32 (0, 10, -3.5, 1000) and NOT exact (0.1, -1/3, 1e-3, 16777217: the kernels' parameter is a
+    float32, so the caller's number arrives rounded; "above" means above the rounded threshold),
+  * values of the not-above pixels: equal to the (rounded) threshold, one float32 below it, 1 below it,
+  * values of the above pixels: one float32 above the threshold, 1 (or 0.5) above it,
+  * labelimage.labelpeaks input dtype / memory layout: float32, float64 (the same values: exactly representable),
+    uint8 / uint16 / int16 / int32 (own integer values and threshold), Fortran order, strided view,
+  * sparseframe.sparse_connected_pixels: default array names (threshold from the meta data or explicit) and the names
+    lima_segmenter.clean passes (data_name="f32", label_name="cp") on a frame whose "intensity" array is a decoy with
+    the opposite classification and whose "intensity" meta threshold classifies nothing as above.
 
 Used in-process by props/c11.py and as a script under the ASan environment:
     python c11_replay.py <cases.jsonl> <out.json>
@@ -11,18 +24,129 @@ import sys, os, json, io, contextlib
 import numpy as np
 
 POISON = -7
+THRS = [0.0, 10.0, -3.5, 1000.0, 0.1, -1.0 / 3.0, 1e-3, 16777217.0]
+NVARIANT = 192                    # idx values after which the (threshold, value, dtype, name) rotation has seen all
+LI_KINDS = ["float32", "float64", "uint16", "int32", "uint8", "int16", "fortran", "strided"]
+INT_THR = [0, 10, 7, 1000]
+
+
+_POOLS = {}
+
+
+def f32_above_below(thr):
+    """(t32, [values not strictly above], [values strictly above]) as float32, checked here without the kernels"""
+    if thr not in _POOLS:
+        _POOLS[thr] = _f32_above_below(thr)
+    return _POOLS[thr]
+
+
+def _f32_above_below(thr):
+    t32 = np.float32(thr)
+    ninf, pinf = np.float32(-np.inf), np.float32(np.inf)
+    lo = [t32, np.nextafter(t32, ninf), np.float32(t32 - np.float32(1.0))]
+    hi1 = np.float32(t32 + np.float32(1.0))
+    hih = np.float32(t32 + np.float32(0.5))
+    up = np.nextafter(t32, pinf)
+    hi = [up, hi1 if hi1 > t32 else up, hih if hih > t32 else up]
+    assert all(x <= t32 for x in lo) and all(x > t32 for x in hi)
+    return t32, np.array(lo, np.float32), np.array(hi, np.float32)
 
 
 def dense_data(tern, ns, nf, thr, variant):
-    """float32 image: above -> thr + 1 (or +0.5), not above -> thr (equal: not strictly above) or thr - 1"""
+    """float32 image; every pixel picks its own representative of its class (rotating with pixel index and variant)"""
     t = np.array(tern).reshape(ns, nf)
-    lo = thr if variant % 2 == 0 else thr - 1.0
-    hi = thr + (1.0 if variant % 3 else 0.5)
-    return np.where(t == 2, hi, lo).astype(np.float32)
+    _, lo, hi = f32_above_below(thr)
+    p = np.arange(ns * nf).reshape(ns, nf)
+    v = variant // len(THRS)
+    return np.where(t == 2, hi[(p + v) % 3], lo[(2 * p + v) % 3]).astype(np.float32)
+
+
+def int_data(tern, ns, nf, variant, dtype):
+    """integer image and integer threshold for the integer input dtypes of labelpeaks"""
+    t = np.array(tern).reshape(ns, nf)
+    thr = INT_THR[variant % 4]          # (variant % 8 selects the float threshold; the integer one follows it)
+    if np.dtype(dtype) == np.uint8:
+        thr = thr % 200
+    p = np.arange(ns * nf).reshape(ns, nf)
+    lo = thr - ((p + variant) % 2)
+    if np.dtype(dtype).kind == "u":
+        lo = np.maximum(lo, 0)
+    hi = thr + 1 + ((p + variant // 4) % 2)
+    return np.where(t == 2, hi, lo).astype(dtype), float(thr)
+
+
+def li_input(kind, data32, tern, ns, nf, variant, thr):
+    """the array handed to labelimage.labelpeaks and its threshold"""
+    if kind == "float32":
+        return data32, thr
+    if kind == "float64":
+        return data32.astype(np.float64), thr
+    if kind == "fortran":
+        return np.asfortranarray(data32), thr
+    if kind == "strided":
+        big = np.full((2 * ns, 3 * nf), np.float32(thr) + np.float32(7.0), np.float32)
+        big[1::2, 2::3] = data32
+        return big[1::2, 2::3], thr
+    return int_data(tern, ns, nf, variant, getattr(np, kind))
 
 
 def routes_for(case):
     return case.get("routes") or ["dense", "labelimage", "sparse", "splat", "sparseframe"]
+
+
+def run_labelpeaks(labelimage, data, thr, shape, reuse=None):
+    """reuse: dict shape -> labelimage object used before (its blim then holds the labels of the previous image, as in
+    a peak search over a series of frames); a fresh object gets a poisoned blim"""
+    li = reuse.get(tuple(shape)) if reuse is not None else None
+    if li is None:
+        with contextlib.redirect_stdout(io.StringIO()):
+            li = labelimage.labelimage(tuple(shape), fileout=io.StringIO(), sptfile=io.StringIO())
+        li.blim[:] = POISON
+        if reuse is not None:
+            reuse[tuple(shape)] = li
+    li.labelpeaks(data, thr)
+    return li.blim, li.npk
+
+
+def run_sparseframe(sparseframe, ii, jj, shape, v, thr, mode, probs, decoy=None):
+    """sparseframe.sparse_connected_pixels; mode 0 threshold from meta, 1 explicit (default names);
+    2 / 3 the same with data_name="f32", label_name="cp" next to a decoy "intensity" array.  returns (labels, n)"""
+    name = "sparseframe.sparse_connected_pixels"
+    if mode < 2:
+        fr = sparseframe.sparse_frame(ii, jj, tuple(shape), itype=np.uint16, pixels={"intensity": v})
+        fr.meta["intensity"] = {"threshold": thr}
+        n = sparseframe.sparse_connected_pixels(fr, threshold=(thr if mode == 1 else None))
+        lname = "connectedpixels"
+    else:
+        name += "(data_name='f32', label_name='cp')"
+        if decoy is None:
+            t32, lo, hi = f32_above_below(thr)
+            decoy = np.where(v > t32, lo[0], hi[1]).astype(np.float32)
+        keep_d, keep_v = decoy.copy(), v.copy()
+        fr = sparseframe.sparse_frame(ii, jj, tuple(shape), itype=np.uint16, pixels={"intensity": decoy})
+        # the decoy's threshold: far above every value in the frame (nothing is a peak under it)
+        fr.meta["intensity"] = {"threshold": float(max(np.max(np.abs(v)), np.max(np.abs(decoy)), abs(thr))) * 2.0 + 4096.0}
+        fr.set_pixels("f32", v, {"threshold": thr})
+        n = sparseframe.sparse_connected_pixels(fr, threshold=(thr if mode == 3 else None), data_name="f32", label_name="cp")
+        lname = "cp"
+        if "connectedpixels" in fr.pixels:
+            probs.append("%s: wrote an array named 'connectedpixels'" % name)
+        if not (np.array_equal(fr.pixels["intensity"], keep_d) and np.array_equal(fr.pixels["f32"], keep_v)):
+            probs.append("%s: the data arrays of the frame were modified" % name)
+    if lname not in fr.pixels:
+        probs.append("%s: no array named %r in the frame afterwards" % (name, lname))
+        return name, None, n
+    if fr.meta.get(lname, {}).get("nlabel") != n:
+        probs.append("%s: nlabel meta differs from returned count" % name)
+    return name, fr.pixels[lname], n
+
+
+def run_splat(cImageD11, v, ii, jj, thr, ns, nf, zpi=0, zpj=0):
+    lab = np.full(len(v), POISON, np.int32)
+    ni, nj = ns + zpi, nf + zpj
+    Z = np.full((ni + 2) * (nj + 2), POISON, np.int32)
+    n = cImageD11.sparse_connectedpixels_splat(v, ii, jj, thr, lab, Z, ni, nj)
+    return lab, n
 
 
 def run_case(case, mods, idx=0):
@@ -33,7 +157,7 @@ def run_case(case, mods, idx=0):
     con8 = int(case.get("con8", 1))
     exp_dense = np.array(case["labels_dense"], dtype=np.int32).reshape(ns, nf)
     n_exp = int(case["np"])
-    thr = [0.0, 10.0, -3.5, 1000.0][idx % 4]
+    thr = THRS[idx % len(THRS)]
     data = dense_data(case["tern"], ns, nf, thr, idx)
     probs = []
     routes = routes_for(case)
@@ -41,19 +165,21 @@ def run_case(case, mods, idx=0):
     def cmp(name, got, exp, n):
         if int(n) != n_exp:
             probs.append("%s: returned count %d, specification %d" % (name, int(n), n_exp))
+        if got is None:
+            return
         if got.shape != exp.shape or not np.array_equal(got, exp):
-            probs.append("%s: labels %s differ from specification %s" % (name, got.ravel().tolist(), exp.ravel().tolist()))
+            probs.append("%s: labels %s differ from specification %s (threshold %r)" % (
+                name, got.ravel().tolist(), exp.ravel().tolist(), thr))
 
     if "dense" in routes:
         lab = np.full((ns, nf), POISON, np.int32)
         n = cImageD11.connectedpixels(data, lab, thr, 0, con8)
         cmp("connectedpixels(con8=%d)" % con8, lab, exp_dense, n)
     if "labelimage" in routes and con8 == 1:
-        with contextlib.redirect_stdout(io.StringIO()):
-            li = labelimage.labelimage((ns, nf), fileout=io.StringIO(), sptfile=io.StringIO())
-        li.blim[:] = POISON
-        li.labelpeaks(data, thr)
-        cmp("labelimage.labelpeaks", li.blim, exp_dense, li.npk)
+        kind = LI_KINDS[(idx // len(THRS)) % len(LI_KINDS)]
+        arr, t = li_input(kind, data, case["tern"], ns, nf, idx, thr)
+        blim, npk = run_labelpeaks(labelimage, arr, t, (ns, nf))
+        cmp("labelimage.labelpeaks(%s input)" % kind, blim, exp_dense, npk)
     if con8 == 1 and ("sparse" in routes or "splat" in routes or "sparseframe" in routes):
         listed = tern > 0
         ii, jj = np.nonzero(listed)
@@ -69,17 +195,12 @@ def run_case(case, mods, idx=0):
             n = cImageD11.sparse_connectedpixels(v, ii, jj, thr, lab)
             cmp("sparse_connectedpixels", lab, exp_sp, n)
         if "splat" in routes:
-            lab = np.full(nnz, POISON, np.int32)
-            Z = np.full((ns + 2) * (nf + 2), POISON, np.int32)
-            n = cImageD11.sparse_connectedpixels_splat(v, ii, jj, thr, lab, Z, ns, nf)
-            cmp("sparse_connectedpixels_splat", lab, exp_sp, n)
+            zpi, zpj = int(case.get("zpi", 0)), int(case.get("zpj", 0))
+            lab, n = run_splat(cImageD11, v, ii, jj, thr, ns, nf, zpi, zpj)
+            cmp("sparse_connectedpixels_splat(Z for %dx%d)" % (ns + zpi, nf + zpj), lab, exp_sp, n)
         if "sparseframe" in routes and nnz > 0:
-            fr = sparseframe.sparse_frame(ii, jj, (ns, nf), itype=np.uint16, pixels={"intensity": v})
-            fr.meta["intensity"] = {"threshold": thr}
-            n = sparseframe.sparse_connected_pixels(fr, threshold=(thr if idx % 2 else None))
-            cmp("sparseframe.sparse_connected_pixels", fr.pixels["connectedpixels"], exp_sp, n)
-            if fr.meta["connectedpixels"]["nlabel"] != n:
-                probs.append("sparseframe: nlabel meta differs from returned count")
+            name, got, n = run_sparseframe(sparseframe, ii, jj, (ns, nf), v, thr, (idx // len(THRS)) % 4, probs)
+            cmp(name, got, exp_sp, n)
     return probs
 
 
